@@ -108,17 +108,17 @@ func (c *call) apply(s *server.Server) error {
 func (c *call) requested() (string, interface{}, bool) {
 	switch c.Setter {
 	case "SetScheduleConfig":
-		return "schedule", decode(c.sched.Clone()), true
+		return "schedule", reqSched(c.sched.Clone()), true
 	case "SetReplicationConfig":
-		return "replication", decodeRepl(c.repl), true
+		return "replication", reqRepl(c.repl), true
 	case "SetPDServerConfig":
 		if c.pd.DashboardAddress == "auto" || c.pd.DashboardAddress == "none" {
-			return "pd-server", decodePD(c.pd), true
+			return "pd-server", reqPD(c.pd), true
 		}
 	case "SetLabelPropertyConfig":
 		return "label-property", decode(c.lp), true
 	case "SetReplicationModeConfig":
-		return "replication-mode", decode(c.rm), true
+		return "replication-mode", reqRM(c.rm), true
 	}
 	return "", nil, false
 }
